@@ -486,6 +486,10 @@ func checkModule(c Case) error {
 			return fmt.Errorf("harness: second module is statically invalid: %v\n%s", errB, srcB)
 		}
 	}
+	// pure operations of the second module on frozen values of the first must not have changed them
+	if after := snap(); after != before {
+		return fmt.Errorf("executing the second module changed values reachable from the first, finished module:\nbefore: %s\nafter:  %s\n%s\n# ---- second module ----\n%s", clip(before), clip(after), c.Src, srcB)
+	}
 	nodesB, _ := walk(gB)
 	snapB := func() string { return host.Canon(gB) + "\n--first--\n" + host.Canon(g) }
 	nB, ferr := assertFrozen(nodesB, snapB, c.Src+"\n# ---- second module ----\n"+srcB, th2)
@@ -569,7 +573,7 @@ func secondModule(g starlark.StringDict) string {
 		case *starlark.List:
 			forms = []string{"%s + [[1]]", "[[1]] + %s", "%s * 2", "sorted(%s, key = lambda e: 0) + [[1]]", "list(zip(%s, [[1], [2]]))"}
 		case starlark.Tuple:
-			forms = []string{"%s + ([1],)", "([1],) + %s", "%s * 2"}
+			forms = []string{"%s + ([1],)", "([1],) + %s", "%s * 2", "%[2]s[:1] + (\"born\", [2]) + %[2]s[:1]", "[%[2]s[:1] + (\"b1\",), %[2]s[:1] + (\"b2\",), %[2]s[:0] + (\"b3\",)]"}
 		case *starlark.Dict:
 			forms = []string{"%s | {\"fresh\": [1]}", "{\"fresh\": [1]} | %s", "dict(%s, fresh = [1])", "[(k, [v]) for k, v in %s.items()]"}
 		case *starlark.Set:
@@ -584,7 +588,11 @@ func secondModule(g starlark.StringDict) string {
 		}
 		count[kind]++
 		// two of the forms per value, rotating (the snapshot-per-mutation oracle is quadratic in the number of nodes)
-		for k := 0; k < 2; k++ {
+		nforms := 2
+		if _, isTuple := g[n].(starlark.Tuple); isTuple {
+			nforms = len(forms) // tuples are small: every form
+		}
+		for k := 0; k < nforms; k++ {
 			j++
 			fmt.Fprintf(&sb, "b_born%d = attempt(lambda: "+forms[(j+len(n))%len(forms)]+")\n", j, n)
 		}
